@@ -380,12 +380,31 @@ func runC20(c *Ctx) {
 			}
 			neg := core.CondEdges(fn, true, func(cond ssa.Value) (bool, bool) {
 				bo, ok := cond.(*ssa.BinOp)
-				if !ok || bo.Op != token.LSS {
+				if !ok {
 					return false, false
 				}
-				_, isParam := bo.X.(*ssa.Parameter)
-				k, okc := core.ConstInt(bo.Y)
-				return true, isParam && okc && k == 0
+				// v < 0, v >= 0, 0 > v, 0 <= v (and v <= -1, v > -1)
+				if _, isParam := bo.X.(*ssa.Parameter); isParam {
+					if k, okc := core.ConstInt(bo.Y); okc {
+						switch {
+						case bo.Op == token.LSS && k == 0, bo.Op == token.LEQ && k == -1:
+							return true, true
+						case bo.Op == token.GEQ && k == 0, bo.Op == token.GTR && k == -1:
+							return false, true
+						}
+					}
+				}
+				if _, isParam := bo.Y.(*ssa.Parameter); isParam {
+					if k, okc := core.ConstInt(bo.X); okc && k == 0 {
+						switch bo.Op {
+						case token.GTR:
+							return true, true
+						case token.LEQ:
+							return false, true
+						}
+					}
+				}
+				return false, false
 			})
 			n := 0
 			isMax := func(v ssa.Value) bool {
